@@ -42,11 +42,28 @@ def dim_of(alg):
 
 
 def create(spec):
+    if spec.startswith("FG|"):
+        from molgri.space.fullgrid import FullGrid
+        _, b, o, t, cart = spec.split("|")
+        return FullGrid(b, o, t, factor=2, position_grid_cartesian=(cart == "cart"))
     alg, N = spec.rsplit("_", 1)
     return SphereGridFactory.create(alg_name=alg, N=int(N), dimensions=dim_of(alg))
 
 
+def observe_fg(fg, getter) -> str:
+    if getter in ("array", "full_array"):
+        a = np.asarray(fg.get_full_grid_as_array() if getter == "array" else fg.get_position_grid().get_position_grid_as_array())
+        return sha(np.ascontiguousarray(a).tobytes(), a.shape)
+    if getter == "volumes":
+        a = np.asarray(fg.get_total_volumes())
+        return sha(np.ascontiguousarray(a).tobytes(), a.shape)
+    m = {"adjacency": fg.get_full_adjacency, "borders": fg.get_full_borders, "distances": fg.get_full_distances}[getter]().tocoo()
+    return sha(m.row.tobytes(), m.col.tobytes(), np.asarray(m.data).tobytes(), m.shape)
+
+
 def observe(obj, getter) -> str:
+    if not hasattr(obj, "dimensions") or type(obj).__name__ == "FullGrid":
+        return observe_fg(obj, getter)
     d = obj.dimensions
     if getter == "array":
         a = obj.get_grid_as_array()
@@ -63,6 +80,8 @@ def observe(obj, getter) -> str:
 
 
 def obj_digest(obj) -> str:
+    if type(obj).__name__ == "FullGrid":
+        return sha(obj_digest(obj.b_rotations), obj_digest(obj.get_position_grid().get_o_grid()), obj.factor)
     parts = [type(obj).__name__, obj.N, np.ascontiguousarray(obj.grid).tobytes() if obj.grid is not None else b""]
     sv = obj.spherical_voronoi
     parts.append(type(sv).__name__)
@@ -144,7 +163,7 @@ class GridSystem:
                 ev.append({"op": "get", "spec": s, "getter": g})
         ev += [{"op": "reseed", "k": 0}, {"op": "reseed", "k": 12345}, {"op": "draw"}]
         for s in st["order"]:
-            if st["objs"][s].polytope is not None:
+            if getattr(st["objs"][s], "polytope", None) is not None:
                 ev.append({"op": "divide", "spec": s})
         return ev
 
@@ -250,6 +269,7 @@ def run(ctx):
     global _TABLE
     rep = Report(PROPERTY, "model_checking")
     specs = SPECS_Q if not ctx.thorough else SPECS_Q + ["ico_43", "cube4D_17", "randomS_20", "randomQ_12"]
+    specs = specs + ["FG|cube4D_5|ico_7|[0.1,0.2]|shell", "FG|randomQ_6|cube3D_9|[0.2,0.3,0.45]|cart"]
     tables = build_table(specs)
     hs = sorted(tables)
     ref = tables[hs[0]]
